@@ -272,8 +272,9 @@ def QCow2.yieldRuns (q : QCow2) : Nat → Nat → Nat → Except Err (List Run)
     let oic := offset % q.cs
     let bytesNeeded := min (length + oic) ((q.l2Size - l2Index) * q.cs)
     let unallocRun : Except Err (Nat × Run) := .ok (bytesNeeded - oic, ⟨SC_UNALLOC_PLAIN, offset, 0, bytesNeeded - oic⟩)
-    let (n, run) ← (if l1Index ≥ q.l1Size then unallocRun else do
+    let (n, run) ← (do
       let l1 ← q.l1
+      if l1Index ≥ l1.size then unallocRun else do
       let l1e ← (match l1[l1Index]? with | some x => .ok x | none => .error .index)
       let l2Offset := l1e &&& L1E_OFFSET_MASK
       if l2Offset = 0 then unallocRun else do
